@@ -300,6 +300,10 @@ def run(rec, shard, nshards, t):
                 rf.rules.insert(rnd.randint(0, len(rf.rules)), R.Rule('AfterTransform', rnd.choice(['startswith("STAR")', 'startswith("EATS") or startswith("TRIP")',
                                                                                              'startswith("COSTCO")']), 'Transformed', 'x'))
                 rec.count('files_with_failing_transform_before_deciding_one')
+            if rnd.random() < .15:
+                # normalized() ignores every kind of blank (no-break, thin, ideographic space too), hyphens, apostrophes, dots and asterisks
+                rf.rules.insert(rnd.randint(0, len(rf.rules)), R.Rule('NormFirst', rnd.choice(['normalized("UBEREATS")', 'normalized("WHOLEFOODSMKT")', 'normalized("whole foods")',
+                                                                                           'normalized("STARBUCKS")']), 'Normalized', 'x'))
             rows = world.ROWSETS[0] if rnd.random() < .7 else rnd.choice(world.ROWSETS)
             txns = world.pool(rnd, ntx, with_fields=rnd.random() < .6)      # else ~15% of the transactions carry no custom fields at all
             txns += world.field_twins(rnd, txns)
